@@ -220,7 +220,8 @@ def pickerHandle (f : List String) : String × String :=
         | some nm =>
           let env := Search.pickerEnv g nm c ply
           let st := if loud == "1" then Picker.newLoud else Picker.new hash
-          let stream := Picker.drain env 600 st
+          -- fuel above the measure of `Props.C10.picker_perm` (10 * bound env): the loop ends on `None`
+          let stream := Picker.drain env (10 * (env.captures.length + env.quiets.length + 1) + 1) st
           -- specification: the legal moves (all of them, or at least captures + queen promotions)
           let rp := toRulesPos g
           let legal := Rules.legalMoves rp
